@@ -1,3 +1,12 @@
-import GenlmModel.Model.Basic
+import Batteries.Tactic.Alias
+import GenlmModel.Proofs.Cert
+/-! # C14 — equivalence and minimality certificates (exact arithmetic) -/
 namespace Genlm.Props.C14
+/-- an accepted certificate proves equal weights on ALL words -/
+alias equivalence_certificate_sound := Genlm.equivCert_sound
+alias zero_certificate_sound := Genlm.zeroCert_sound
+alias difference_automaton := Genlm.diff_weight
+alias counterexample_sound := Genlm.counterexample_sound
+/-- an accepted Hankel-minor certificate bounds the size of EVERY equivalent automaton from below -/
+alias hankel_lower_bound := Genlm.rankLower_sound
 end Genlm.Props.C14
